@@ -90,6 +90,14 @@ def contains_identity(obj, target):
     return False
 
 
+def same_failure(exc, untagged, lname, fn):
+    try:
+        list(yaml.load_all(untagged, Loader=getattr(yaml, lname))) if not fn else list(yaml.full_load_all(untagged))
+    except Exception as e2:
+        return type(e2) is type(exc) and str(e2) == str(exc)
+    return False
+
+
 def check_doc(h, tag, kind, info, text, untagged, ctx):
     case = {'text': text, 'info': dict(info, tag=tag, kind=kind, untagged=untagged)}
     ctx.crumb(case)
@@ -137,6 +145,10 @@ def check_doc(h, tag, kind, info, text, untagged, ctx):
                 ctx.violation(case, dict(who, what='object-construction tag accepted by the full loader', result=repr(res)[:300]), None)
             elif st == 'yamlerror' and not isinstance(res, yaml.constructor.ConstructorError):
                 ctx.violation(case, dict(who, what='object-construction tag rejected with another error class', exc=type(res).__name__), None)
+            elif st == 'other' and info.get('value_key') and not flagged and same_failure(res, untagged, lname, fn):
+                # F22: the tag is never looked at, so the document ends exactly like the same document without the tag
+                ctx.violation(case, dict(who, what='object-construction tag on or beside the value of a "=" key under a scalar tag is ignored, not rejected (same failure as without the tag)',
+                                         exc=type(res).__name__), 'F22')
             elif st == 'other':
                 # the tag was not honoured, but the property asks for a constructor error
                 ctx.violation(case, dict(who, what='object-construction tag ended in a non-YAML exception instead of a constructor error', exc=type(res).__name__, msg=str(res)[:200]), None)
